@@ -104,7 +104,10 @@ func (n *RawNode) newContext() context.Context {
 // close this node.
 func (n *RawNode) close() error {
 	// important to cancel first to stop goroutines
-	n.cancel()
+	if n.cancel != nil {
+		// cancel is nil if the manager was told not to connect to its nodes
+		n.cancel()
+	}
 	if n.conn == nil {
 		return nil
 	}
